@@ -427,3 +427,302 @@ Example ex_combined :
   | _ => False
   end.
 Proof. vm_compute. reflexivity. Qed.
+
+(* ------------------------------------------------------------------ *)
+(* the open outcomes of cstep, characterised *)
+
+(* CSupplyFailed on an allocation is about the HISTORY, not the allocator: the history named a supply the span layer
+   does not have.  A supply is available when ... *)
+Definition supply_ok (mc : Z) (ss : sstate) (w : supply) : Prop :=
+  match w with
+  | FromMap base =>      (* the OS returns a mapping that overlaps no live mapping (out of memory = no such base) *)
+      existsb (fun g => overlaps base (Z.max 1 mc) (rg_base g) (rg_total g)) (regions ss) = false
+  | FromReserve => exists r, find_first p_reserved (objs ss) = Some r /\ 1 <= so_count r
+  | FromCache s => exists o, find_first (p_start s) (objs ss) = Some o /\ so_status o = Cached /\ so_count o = 1
+  end.
+
+Lemma supply_ok_acquires : forall mc ss w, supply_ok mc ss w ->
+  exists ss1 o, acquire mc ss w = Some ss1 /\ acquired ss1 w = Some o /\ so_count o = 1.
+Proof.
+  intros mc ss w H. destruct w as [base | | s]; simpl in *.
+  - unfold op_map. replace (1 <? 1) with false by reflexivity. rewrite H. simpl. eexists. eexists. split; [reflexivity|]. simpl. auto.
+  - destruct H as (r & F & C). unfold op_from_reserve, reserve_of. rewrite F.
+    replace (1 <? 1) with false by reflexivity. replace (so_count r <? 1) with false by (symmetry; apply Z.ltb_ge; lia).
+    simpl. eexists. eexists. split; [reflexivity|]. simpl. auto.
+  - destruct H as (o & F & S & C). unfold op_set_status. rewrite F, S. simpl.
+    eexists. eexists. split; [reflexivity|]. simpl.
+    destruct (find_first_split _ _ _ F) as (a & b & E & Na & Po).
+    rewrite E, map_app. simpl. rewrite find_first_app_skip.
+    + simpl. unfold p_start in *. rewrite Po. simpl. rewrite Po. split; [reflexivity|]. simpl. assumption.
+    + intros y Hy. apply in_map_iff in Hy. destruct Hy as (z & Ez & Hz). subst y. specialize (Na z Hz).
+      unfold p_start in *. rewrite Na. assumption.
+Qed.
+
+(* ... and with an available supply an allocation step never answers CSupplyFailed *)
+Theorem cstep_alloc_supply : forall psh mc st size w, supply_ok mc (cs_spans st) w ->
+  cstep psh mc st (CAllocSM size w) <> CSupplyFailed.
+Proof.
+  intros psh mc st size w H. destruct (supply_ok_acquires mc (cs_spans st) w H) as (ss1 & o & A & Q & C).
+  unfold cstep. rewrite A, Q, C. simpl.
+  destruct (sm_allocate psh (cs_heap st) size (so_start o)) as [[[[[h' s] off] us] uf]| | | | |]; discriminate.
+Qed.
+(* a fresh mapping is always an available supply as long as the OS finds room: some base is free *)
+Lemma fresh_base_is_supply : forall mc ss, exists base, supply_ok mc ss (FromMap base).
+Proof.
+  intros mc ss. simpl.
+  (* a base beyond every live mapping *)
+  set (top := fold_right (fun g acc => Z.max acc (rg_base g + rg_total g)) 0 (regions ss)).
+  exists top. destruct (existsb _ (regions ss)) eqn:E; [|reflexivity]. exfalso.
+  apply existsb_exists in E. destruct E as (g & I & O). unfold overlaps in O. apply andb_prop in O. destruct O as [O _].
+  apply Z.ltb_lt in O.
+  assert (rg_base g + rg_total g <= top).
+  { unfold top. clear O. induction (regions ss) as [|x r IH]; simpl in *; [contradiction|].
+    destruct I as [I | I]; [subst; lia | specialize (IH I); lia]. }
+  lia.
+Qed.
+
+(* CBadCall on an allocation is the heap model finding ITS OWN state inconsistent (class_alloc's CErrCorrupt: the
+   head of the partial list is not in the span table); under the class machine's invariant for the serving class
+   (C19_span_machine_history maintains it along any history of that class) it cannot happen *)
+Theorem cstep_alloc_not_bad : forall psh mc st size w live, 0 <= size <= medium_limit ->
+  class_inv (class_bc (selected_class size)) (cl_lookup (selected_class size) (h_classes (cs_heap st))) live ->
+  cstep psh mc st (CAllocSM size w) <> CBadCall.
+Proof.
+  intros psh mc st size w live Hs CI. unfold cstep.
+  destruct (acquire mc (cs_spans st) w) as [ss1|]; [|discriminate].
+  destruct (acquired ss1 w) as [o|]; [|discriminate]. destruct (negb (so_count o =? 1)); [discriminate|].
+  unfold sm_allocate. set (c := selected_class size) in *.
+  assert (V : valid_class c).
+  { unfold c, selected_class. pose proof (regime_cases size ltac:(lia)) as RC. destruct (regime_of size) eqn:R.
+    - apply small_class_fits. assumption.
+    - apply medium_class_fits. assumption.
+    - lia.
+    - pose proof fact_limits as (_ & _ & _ & _ & _ & L6 & _). lia. }
+  assert (R : 1 <= class_bc c < 2 ^ 32) by (destruct V as (_ & _ & _ & _ & B); lia).
+  pose proof (class_alloc_safe (class_bc c) (chunk_of psh (class_bs c) (class_bc c)) R (chunk_of_ok psh c V)
+                (cl_lookup c (h_classes (cs_heap st))) live (so_start o) CI) as S.
+  destruct (class_alloc (class_bc c) (chunk_of psh (class_bs c) (class_bc c)) (cl_lookup c (h_classes (cs_heap st))) (so_start o))
+    as [[[cs' [s0 i]] uf]| | | | |]; try contradiction; try discriminate.
+  destruct (uf && range_in_use psh (cs_heap st) (so_start o) 1); discriminate.
+Qed.
+
+(* ------------------------------------------------------------------ *)
+(* the combined machine projects onto the L_alloc history machine: forgetting the span layer, every combined step
+   that succeeds IS the L_alloc call with the same arguments (the span oracle answering with the span the span
+   layer supplied), so everything C19_lalloc_history_ownership proves about lrun holds for the heap component of
+   every combined history *)
+Definition supplied_start (mc : Z) (ss : sstate) (w : supply) : Z :=
+  match acquire mc ss w with
+  | Some ss1 => match acquired ss1 w with Some o => so_start o | None => 0 end
+  | None => 0
+  end.
+Definition call_of (mc : Z) (ss : sstate) (op : cop) : lcall :=
+  match op with
+  | CAllocSM size w => mk_lcall None 0 size (supplied_start mc ss w) 1
+  | CFreeSM span off => mk_lcall (Some (span, off)) 0 0 0 0
+  end.
+Fixpoint calls_of (psh mc : Z) (st : cstate) (ops : list cop) : list lcall :=
+  match ops with
+  | [] => []
+  | op :: r => call_of mc (cs_spans st) op ::
+               match cstep psh mc st op with CDone st' _ => calls_of psh mc st' r | _ => [] end
+  end.
+Definition op_ok1 (op : cop) : Prop :=
+  match op with CAllocSM size _ => 1 <= size <= medium_limit | CFreeSM _ _ => True end.
+
+Lemma realloc_new_size_fresh : forall size, 1 <= size -> realloc_new_size size 0 = size.
+Proof.
+  intros size H. unfold realloc_new_size. replace (u64 (0 + Z.shiftr 0 2 + Z.shiftr 0 3)) with 0 by reflexivity.
+  replace (0 <? size) with true by (symmetry; apply Z.ltb_lt; lia). reflexivity.
+Qed.
+
+Lemma cstep_projects : forall psh mc st op st' ret, op_ok1 op -> cstep psh mc st op = CDone st' ret ->
+  exists p us f, let c := call_of mc (cs_spans st) op in
+    l_alloc psh (cs_heap st) (lc_ptr c) (lc_osize c) (lc_nsize c) (lc_span c) (lc_count c) = COk (cs_heap st', p, us, f).
+Proof.
+  intros psh mc st op st' ret Hok H. destruct op as [size w | span off]; simpl in *.
+  - unfold supplied_start. destruct (acquire mc (cs_spans st) w) as [ss1|]; [|discriminate].
+    destruct (acquired ss1 w) as [o|]; [|discriminate]. destruct (negb (so_count o =? 1)); [discriminate|].
+    unfold l_alloc. replace (size =? 0) with false by (symmetry; apply Z.eqb_neq; lia).
+    pose proof fact_lalloc as (_ & A2 & A3 & _). rewrite A2, A3. cbn [negb orb].
+    rewrite realloc_new_size_fresh by lia.
+    rewrite (sm_allocate_is_heap_allocate psh (cs_heap st) size (so_start o) 1) by lia.
+    destruct (sm_allocate psh (cs_heap st) size (so_start o)) as [[[[[h' s] off] us] uf]| | | | |]; try discriminate.
+    inversion H; subst; clear H. simpl. eexists. eexists. eexists. reflexivity.
+  - unfold l_alloc. simpl. destruct (heap_free (cs_heap st) span off) as [h'| | | | |]; try discriminate.
+    destruct (owns_raw (cs_heap st) span && negb (owns_raw h' span)).
+    + destruct (op_set_status (cs_spans st) span InUse Cached); [|discriminate].
+      inversion H; subst; clear H. simpl. eexists. eexists. eexists. reflexivity.
+    + inversion H; subst; clear H. simpl. eexists. eexists. eexists. reflexivity.
+Qed.
+
+Theorem crun_projects : forall psh mc ops st st' ret, Forall op_ok1 ops -> crun psh mc st ops = CDone st' ret ->
+  lrun psh (cs_heap st) (calls_of psh mc st ops) = Some (cs_heap st').
+Proof.
+  intros psh mc ops. induction ops as [|op r IH]; intros st st' ret F H; simpl in *.
+  - inversion H; subst. reflexivity.
+  - inversion F as [|? ? Hop Fr]; subst. destruct (cstep psh mc st op) as [st1 ret1| | |] eqn:E; try discriminate.
+    destruct (cstep_projects psh mc st op st1 ret1 Hop E) as (p & us & f & L). simpl in L. rewrite L.
+    apply (IH st1 st' ret Fr H).
+Qed.
+
+(* so the ownership invariant of the L_alloc history machine holds for the heap of every state the combined machine
+   reaches from the empty state *)
+Theorem combined_history_ownership : forall psh mc ops st' ret, Forall op_ok1 ops ->
+  crun psh mc (mk_cstate heap_empty sempty) ops = CDone st' ret -> own_ok psh (cs_heap st').
+Proof.
+  intros psh mc ops st' ret F H. apply (lalloc_history_ownership psh (calls_of psh mc (mk_cstate heap_empty sempty) ops)).
+  apply (crun_projects psh mc ops _ st' ret F H).
+Qed.
+
+(* ------------------------------------------------------------------ *)
+(* CBadCall along whole histories.  The class machine's invariant needs the ghost list of live blocks of each class;
+   it is carried next to the combined state.  A free is a VALID call when it names a live block (the caller's
+   obligation: no double free, no foreign pointer); valid histories never reach CBadCall. *)
+Definition ghost := Z -> list (Z * Z).
+Definition lv_add (lv : ghost) (c : Z) (b : Z * Z) : ghost := fun c' => if c' =? c then b :: lv c' else lv c'.
+Definition lv_del (lv : ghost) (c : Z) (b : Z * Z) : ghost :=
+  fun c' => if c' =? c then match remove_one b (lv c') with Some l => l | None => lv c' end else lv c'.
+Definition linv (st : cstate) (lv : ghost) : Prop :=
+  forall c, valid_class c -> class_inv (class_bc c) (cl_lookup c (h_classes (cs_heap st))) (lv c).
+Definition block_index (c off : Z) : Z := (off - SPAN_HEADER_SIZE) / class_bs c.
+
+Lemma selected_class_valid : forall size, 0 <= size <= medium_limit -> valid_class (selected_class size).
+Proof.
+  intros size Hs. unfold selected_class. pose proof (regime_cases size ltac:(lia)) as RC. destruct (regime_of size) eqn:R.
+  - apply small_class_fits. assumption.
+  - apply medium_class_fits. assumption.
+  - lia.
+  - pose proof fact_limits as (_ & _ & _ & _ & _ & L6 & _). lia.
+Qed.
+
+Lemma linv_empty : linv (mk_cstate heap_empty sempty) (fun _ => []).
+Proof.
+  intros c V. simpl. assert (R : 1 <= class_bc c < 2 ^ 32) by (destruct V as (_ & _ & _ & _ & B); lia).
+  apply class_inv_empty; assumption.
+Qed.
+
+Theorem cstep_alloc_linv : forall psh mc st size w lv, 0 <= size <= medium_limit -> linv st lv ->
+  cstep psh mc st (CAllocSM size w) <> CBadCall /\
+  forall st' ret, cstep psh mc st (CAllocSM size w) = CDone st' ret ->
+    exists s off us, ret = Some (s, off, us) /\
+      linv st' (lv_add lv (selected_class size) (s, block_index (selected_class size) off)).
+Proof.
+  intros psh mc st size w lv Hs LI.
+  pose proof (selected_class_valid size Hs) as V. set (c := selected_class size) in *.
+  split; [apply (cstep_alloc_not_bad psh mc st size w (lv c) Hs); apply LI; exact V|].
+  intros st' ret H. unfold cstep in H.
+  destruct (acquire mc (cs_spans st) w) as [ss1|]; [|discriminate].
+  destruct (acquired ss1 w) as [o|]; [|discriminate]. destruct (negb (so_count o =? 1)); [discriminate|].
+  unfold sm_allocate in H. fold c in H.
+  assert (R : 1 <= class_bc c < 2 ^ 32) by (destruct V as (_ & _ & _ & _ & B); lia).
+  pose proof (class_alloc_safe (class_bc c) (chunk_of psh (class_bs c) (class_bc c)) R (chunk_of_ok psh c V)
+                (cl_lookup c (h_classes (cs_heap st))) (lv c) (so_start o) (LI c V)) as S.
+  destruct (class_alloc (class_bc c) (chunk_of psh (class_bs c) (class_bc c)) (cl_lookup c (h_classes (cs_heap st))) (so_start o))
+    as [[[cs' [s0 i]] uf]| | | | |]; try contradiction; try discriminate.
+  destruct (uf && range_in_use psh (cs_heap st) (so_start o) 1); [discriminate|].
+  inversion H; subst; clear H. exists s0, (block_offset (class_bs c) i), (class_bs c). split; [reflexivity|].
+  assert (BI : block_index c (block_offset (class_bs c) i) = i).
+  { unfold block_index, block_offset. destruct V as (_ & P & _).
+    replace (SPAN_HEADER_SIZE + i * class_bs c - SPAN_HEADER_SIZE) with (i * class_bs c) by lia.
+    apply Z.div_mul. lia. }
+  rewrite BI. intros c' V'. unfold lv_add. cbn [cs_heap h_classes]. rewrite cl_lookup_update.
+  destruct (c' =? c) eqn:E.
+  - apply Z.eqb_eq in E. subst c'. apply S.
+  - apply LI. exact V'.
+Qed.
+
+(* a valid free names a live block of the class that owns its span *)
+Definition live_block (st : cstate) (lv : ghost) (span off c : Z) : Prop :=
+  block_info_of (cs_heap st) span = Some (BSmall c) /\ valid_class c /\
+  SPAN_HEADER_SIZE <= off /\ (off - SPAN_HEADER_SIZE) mod class_bs c = 0 /\
+  exists live', remove_one (span, block_index c off) (lv c) = Some live'.
+
+Theorem cstep_free_linv : forall psh mc st span off lv c, linv st lv -> live_block st lv span off c ->
+  cstep psh mc st (CFreeSM span off) <> CBadCall /\
+  forall st' ret, cstep psh mc st (CFreeSM span off) = CDone st' ret -> linv st' (lv_del lv c (span, block_index c off)).
+Proof.
+  intros psh mc st span off lv c LI (BI & V & Ho & Hm & live' & Ro).
+  assert (R : 1 <= class_bc c < 2 ^ 32) by (destruct V as (_ & _ & _ & _ & B); lia).
+  destruct (class_free_safe_nochunk (class_bc c) R (cl_lookup c (h_classes (cs_heap st))) (lv c) live'
+              (span, block_index c off) (LI c V) (remove_one_perm _ _ _ Ro)) as (cs' & CF & CI').
+  assert (HF : heap_free (cs_heap st) span off = COk (mk_heap (cl_update c cs' (h_classes (cs_heap st))) (h_big (cs_heap st)))).
+  { unfold heap_free. rewrite BI.
+    replace (off <? SPAN_HEADER_SIZE) with false by (symmetry; apply Z.ltb_ge; lia).
+    rewrite Hm. cbn [Z.eqb negb orb]. unfold block_index in CF. rewrite CF. reflexivity. }
+  assert (G : linv (mk_cstate (mk_heap (cl_update c cs' (h_classes (cs_heap st))) (h_big (cs_heap st))) (cs_spans st))
+                   (lv_del lv c (span, block_index c off)) /\ True).
+  { split; [|exact I]. intros c' V'. unfold lv_del. cbn [cs_heap h_classes]. rewrite cl_lookup_update.
+    destruct (c' =? c) eqn:E.
+    - apply Z.eqb_eq in E. subst c'. rewrite Ro. exact CI'.
+    - apply LI. exact V'. }
+  destruct G as [G _]. unfold cstep. rewrite HF.
+  destruct (owns_raw (cs_heap st) span && negb (owns_raw _ span)).
+  - destruct (op_set_status (cs_spans st) span InUse Cached) as [ss'|]; split; try discriminate.
+    intros st' ret H. inversion H; subst. intros c' V'. apply (G c' V').
+  - split; [discriminate|]. intros st' ret H. inversion H; subst. exact G.
+Qed.
+
+(* valid histories: sizes in the small/medium range, every free names a block that is live at that point *)
+Fixpoint hist_ok (psh mc : Z) (st : cstate) (lv : ghost) (ops : list cop) : Prop :=
+  match ops with
+  | [] => True
+  | CAllocSM size w :: r =>
+      0 <= size <= medium_limit /\
+      forall st' s off us, cstep psh mc st (CAllocSM size w) = CDone st' (Some (s, off, us)) ->
+        hist_ok psh mc st' (lv_add lv (selected_class size) (s, block_index (selected_class size) off)) r
+  | CFreeSM span off :: r =>
+      exists c, live_block st lv span off c /\
+      forall st' ret, cstep psh mc st (CFreeSM span off) = CDone st' ret ->
+        hist_ok psh mc st' (lv_del lv c (span, block_index c off)) r
+  end.
+
+Theorem combined_history_no_bad_call : forall psh mc ops st lv, linv st lv -> hist_ok psh mc st lv ops ->
+  crun psh mc st ops <> CBadCall.
+Proof.
+  intros psh mc ops. induction ops as [|op r IH]; intros st lv LI HO; [simpl; discriminate|].
+  destruct op as [size w | span off]; cbn [crun hist_ok] in *.
+  - destruct HO as [Hs HO]. destruct (cstep_alloc_linv psh mc st size w lv Hs LI) as [NB Pres].
+    destruct (cstep psh mc st (CAllocSM size w)) as [st1 ret1| | |] eqn:S; try discriminate; [|exfalso; apply NB; reflexivity].
+    destruct (Pres st1 ret1 eq_refl) as (s & off & us & Er & LI'). subst ret1.
+    apply (IH st1 _ LI'). apply (HO st1 s off us eq_refl).
+  - destruct HO as (c & LB & HO). destruct (cstep_free_linv psh mc st span off lv c LI LB) as [NB Pres].
+    destruct (cstep psh mc st (CFreeSM span off)) as [st1 ret1| | |] eqn:S; try discriminate; [|exfalso; apply NB; reflexivity].
+    apply (IH st1 _ (Pres st1 ret1 eq_refl)). apply (HO st1 ret1 eq_refl).
+Qed.
+
+(* a double free is not a valid history: the second free of the same block finds it not live *)
+Lemma remove_one_not_in : forall b l, remove_one b l = None <-> ~ In b l.
+Proof.
+  intros [s i] l. induction l as [|[s' i'] r IH]; simpl; [intuition|].
+  destruct ((s' =? s) && (i' =? i)) eqn:E.
+  - apply andb_prop in E. destruct E as [E1 E2]. apply Z.eqb_eq in E1, E2. subst. split; [discriminate|]. intros N. exfalso. apply N. left. reflexivity.
+  - destruct (remove_one (s, i) r) eqn:Ro.
+    + split; [discriminate|]. intros N. exfalso. destruct IH as [_ IH].
+      assert (~ In (s, i) r) by (intros X; apply N; right; exact X). specialize (IH H). discriminate.
+    + split; [|reflexivity]. intros _ [X | X].
+      * inversion X; subst. rewrite !Z.eqb_refl in E. discriminate.
+      * destruct IH as [IH _]. apply (IH eq_refl X).
+Qed.
+
+(* non-vacuity of hist_ok: allocate, free that block (valid); the same free again is NOT a valid call *)
+Example ex_hist_ok : hist_ok 12 64 (mk_cstate heap_empty sempty) (fun _ => []) [CAllocSM 100 (FromMap 1000); CFreeSM 1000 128].
+Proof.
+  cbn [hist_ok]. split; [pose proof fact_limits; vm_compute; split; discriminate|].
+  intros st' s off us H. vm_compute in H. inversion H; subst; clear H.
+  exists (selected_class 100). split.
+  - unfold live_block. split; [vm_compute; reflexivity|]. split; [apply selected_class_valid; vm_compute; split; discriminate|].
+    split; [vm_compute; discriminate|]. split; [vm_compute; reflexivity|]. eexists. vm_compute. reflexivity.
+  - intros; exact I.
+Qed.
+Example ex_double_free_invalid : forall st' s off us,
+  cstep 12 64 (mk_cstate heap_empty sempty) (CAllocSM 100 (FromMap 1000)) = CDone st' (Some (s, off, us)) ->
+  forall st'' ret, cstep 12 64 st' (CFreeSM 1000 128) = CDone st'' ret ->
+  let c := selected_class 100 in let lv := lv_del (lv_add (fun _ => []) c (s, block_index c off)) c (1000, block_index c 128) in
+  ~ hist_ok 12 64 st'' lv [CFreeSM 1000 128].
+Proof.
+  intros st' s off us H. vm_compute in H. inversion H; subst; clear H.
+  intros st'' ret H. vm_compute in H. inversion H; subst; clear H.
+  intros c lv (c' & (BI & _ & _ & _ & live' & Ro) & _).
+  vm_compute in BI. inversion BI; subst c'. vm_compute in Ro. discriminate.
+Qed.
